@@ -124,6 +124,7 @@ class ChannelCheck(PropCheck):
 class C06(ChannelCheck):
     pid = "C06"
     prop_module = "SigHook.Props.C06"
+    extra_modules = ("SigHook.Props.Packed", "SigHook.Props.C06b")
 
 
 class C07(ChannelCheck):
